@@ -5,6 +5,7 @@ package corerad
 // timeline inside a synctest bubble.
 
 import (
+	"sort"
 	"bytes"
 	"context"
 	"encoding/json"
@@ -479,6 +480,17 @@ func (w *world) packetFor(a *Action, ifc *wiface) ([]byte, error) {
 
 // apply performs one environment action. Called by the driver at quiescence.
 func (w *world) apply(a *Action, ds []*daemon) {
+	if a.Then != nil {
+		// a second thing that happens before the daemon gets to run again
+		defer func() {
+			t := *a.Then
+			if t.If == "" {
+				t.If = a.If
+			}
+			t.Node = a.Node
+			w.apply(&t, ds)
+		}()
+	}
 	e := verifsim.Event{K: "act." + a.Kind, Node: a.Node, If: a.If}
 	var n *wnode
 	if a.Node < len(w.nodes) {
@@ -522,14 +534,6 @@ func (w *world) apply(a *Action, ds []*daemon) {
 		for i := 0; i < cnt; i++ {
 			w.log.Add(e)
 			c.deliver(packet{b: b, src: src, hop: hop})
-		}
-		if a.Then != nil {
-			t := *a.Then
-			if t.If == "" {
-				t.If = a.If
-			}
-			t.Node = a.Node
-			w.apply(&t, ds)
 		}
 	case "fwd":
 		if ifc != nil {
@@ -765,13 +769,67 @@ func execPlan(t *testing.T, p *Plan, res *verifsim.Result, oracle func(*runInfo)
 			// synchronisation point of internal/corerad, internal/system and
 			// internal/netstate steps back with probability 1/3, in an order that
 			// is a function of the seed alone (one P, no preemption).
+			// Half of the seeds are "swarm" seeds: each site gets a policy of its
+			// own for the whole run (never / one in three / always), a function
+			// of the seed and the site's name. A goroutine that always steps back
+			// at one particular select while another never does at its send is the
+			// kind of sustained bias that independent coins produce once in 3^17.
 			x := p.Sched
-			verifyield.Hook = func(string) {
-				x += 0x9e3779b97f4a7c15
-				z := x
+			swarm := (p.Sched>>1)&1 == 1
+			mix := func(z uint64) uint64 {
 				z = (z ^ (z >> 30)) * 0xbf58476d1ce4e5b9
 				z = (z ^ (z >> 27)) * 0x94d049bb133111eb
-				if (z^(z>>31))%3 == 0 {
+				return z ^ (z >> 31)
+			}
+			policy := map[string]uint64{}
+			var biasKeys []string
+			for k := range p.Bias {
+				biasKeys = append(biasKeys, k)
+			}
+			sort.Slice(biasKeys, func(i, j int) bool { // the longest matching key wins
+				if len(biasKeys[i]) != len(biasKeys[j]) {
+					return len(biasKeys[i]) < len(biasKeys[j])
+				}
+				return biasKeys[i] < biasKeys[j]
+			})
+			trace := os.Getenv("VERIF_YIELD_TRACE") != ""
+			verifyield.Hook = func(site string) {
+				x += 0x9e3779b97f4a7c15
+				if trace {
+					fmt.Fprintf(os.Stderr, "yield g%d %s\n", verifsim.Goid(), site)
+				}
+				if swarm || len(biasKeys) > 0 {
+					pol, ok := policy[site]
+					if !ok {
+						for _, k := range biasKeys {
+							if strings.HasPrefix(site, k) {
+								pol, ok = p.Bias[k], true
+							}
+						}
+						if ok {
+							policy[site] = pol
+						}
+					}
+					if !ok && !swarm {
+						pol, ok = 1, true
+					}
+					if !ok {
+						h := uint64(14695981039346656037)
+						for i := 0; i < len(site); i++ {
+							h = (h ^ uint64(site[i])) * 1099511628211
+						}
+						pol = mix(h^p.Sched) % 4
+						policy[site] = pol
+					}
+					switch pol {
+					case 0:
+						return
+					case 3:
+						runtime.Gosched()
+						return
+					}
+				}
+				if mix(x)%3 == 0 {
 					runtime.Gosched()
 				}
 			}
